@@ -1,5 +1,6 @@
 """C11 - constants evaluate as integer arithmetic and substitute transparently."""
 import json
+import struct
 
 from hypothesis import strategies as st
 
@@ -11,6 +12,8 @@ PROFILE = S.profile(chr_extra='\'\'\'##,,()" ', n_consts=(2, 8), p_const_operand
                     w_upper=3, w_group=1, far=False, n_items=(2, 30))
 N = {'quick': 3200, 'thorough': 240000}
 PRINTABLE = [chr(c) for c in range(0x20, 0x7f)]
+# character literals beyond ASCII stand for their code point (Latin-1, two- and three-byte UTF-8, astral)
+NONASCII = ['\u00e9', '\u00ff', '\u0100', '\u03a9', '\u20ac', '\U0001f600']
 
 
 def subst_value(v, consts):
@@ -186,13 +189,18 @@ def chars_job(tier):
     """Every printable ASCII character as the value of a constant, raw and (for ' and \\) escaped."""
     a = env.load_asm()
     res = env.Result()
-    for ch in PRINTABLE:
+    for ch in PRINTABLE + NONASCII:
         spellings = [("'%s'" % ch, False)]
         if ch in "'\\":
             spellings.append(("'\\%s'" % ch, True))
         worked = 0
+        contexts = ['K = %s', '  K = %s  # c', 'K = %s\ndw K', 'dw %s + 1']
+        if ord(ch) < 2048:
+            contexts.append('K = %s\naddi x1, x0, K')
+        if ord(ch) < 256:
+            contexts += ['K = %s\ndb K', 'db %s']
         for text, esc in spellings:
-            for ctx_line in ('K = %s', '  K = %s  # c', 'K = %s\naddi x1, x0, K', 'K = %s\ndb K'):
+            for ctx_line in contexts:
                 src = (ctx_line % text) + '\n'
                 res.evaluations += 1
                 consts = {}
@@ -204,15 +212,21 @@ def chars_job(tier):
                     continue
                 worked += 1
                 res.nontrivial_count += 1
-                if consts.get('K') != ord(ch):
+                if 'K = ' not in src:
+                    want = struct.pack('<I', ord(ch) + 1) if 'dw' in src else bytes([ord(ch)])
+                    if out != want:
+                        res.fail('char:use:%r' % ch, '%s emits %s' % (src.strip(), out.hex()), {'kind': 'char', 'source': src, 'ch': ch})
+                elif consts.get('K') != ord(ch):
                     res.fail('char:value:%r' % ch, 'K = %s gives %r, expected %d' % (text, consts.get('K'), ord(ch)), {'kind': 'char', 'source': src, 'ch': ch})
                 elif 'addi' in src and out != _addi(ord(ch)):
                     res.fail('char:use:%r' % ch, 'addi with K = %s encodes %s' % (text, out.hex()), {'kind': 'char', 'source': src, 'ch': ch})
+                elif 'dw' in src and out != struct.pack('<I', ord(ch)):
+                    res.fail('char:use:%r' % ch, 'dw with K = %s emits %s' % (text, out.hex()), {'kind': 'char', 'source': src, 'ch': ch})
                 elif 'db' in src and out != bytes([ord(ch)]):
                     res.fail('char:use:%r' % ch, 'db with K = %s emits %s' % (text, out.hex()), {'kind': 'char', 'source': src, 'ch': ch})
         if ch in "'\\" and not worked:
             res.fail('char:refused:%r' % ch, 'neither the raw nor the escaped spelling of %r works' % ch, {'kind': 'char', 'source': "K = '\\%s'\n" % ch, 'ch': ch})
-    res.sample({'chars': 'all 95 printable ASCII characters, 4 contexts each'})
+    res.sample({'chars': 'all 95 printable ASCII characters and 6 non-ASCII ones, 4-7 contexts each'})
     return res
 
 
@@ -228,7 +242,7 @@ def run(tier):
                 'parentheses, decimal/hex literals, earlier constants, character literals, register aliases) used as immediates, '
                 'li operands, shift amounts, register aliases in real/pseudo/c.* instructions, data values and inside '
                 '%hi/%lo/%position; oracle: constants dict == own evaluator, and bytes+labels == the same IR with values / '
-                'registers written literally, both compression modes. (2) all 95 printable ASCII character literals in 4 contexts. '
+                'registers written literally, both compression modes. (2) all 95 printable ASCII character literals and 6 non-ASCII ones (value = code point) in 4-7 contexts. '
                 'non-trivial = expression depth >= 2 or a non-immediate usage site; distinct by (source, mode)')
     chk.merge(env.run_shards(chars_job, [(tier,)]))
     chk.merge(env.run_shards(redefinition_job, [(env.derive(chk.seed, PROP, 'redef', i), {'quick': 40, 'thorough': 2000}[tier]) for i in range(4)]))
@@ -252,8 +266,12 @@ def replay(path):
         a = env.load_asm()
         consts = {}
         try:
-            a.assemble(body['case']['source'], constants=consts)
-            bad = consts.get('K') != ord(body['case']['ch'])
+            src, code = body['case']['source'], ord(body['case']['ch'])
+            out = bytes(a.assemble(src, constants=consts))
+            if 'K = ' in src:
+                bad = consts.get('K') != code or ('dw K' in src and out != struct.pack('<I', code)) or ('db K' in src and out != bytes([code]))
+            else:
+                bad = out != (struct.pack('<I', code + 1) if 'dw' in src else bytes([code]))
         except Exception:
             bad = True
         if bad:
